@@ -68,6 +68,7 @@ variable (rows : List FullRow) (mpp : Rat) (a z : FullRow)
   (hh : (sortRows rows).head? = some a) (hl : (sortRows rows).getLast? = some z)
 include hnd hh hl
 
+omit hh hl in
 theorem nodup_sorted : ((sortRows rows).map (·.1)).Nodup :=
   (((sortRows_perm rows).map (fun r : FullRow => r.1)).nodup_iff).mpr hnd
 
@@ -77,7 +78,7 @@ theorem col_gaps (c m : Nat) :
       = (dispDef (coord mpp c rows) m, sqDef (coord mpp c rows) m) := by
   have hperm : (coord mpp c (sortRows rows)).Perm (coord mpp c rows) := (sortRows_perm rows).map _
   rw [gapsRow_eq_def (coord mpp c (sortRows rows)) m a.1 ((z.1 - a.1).toNat + 1)
-    (by rw [coord_frames]; exact nodup_sorted rows a z hnd hh hl)
+    (by rw [coord_frames]; exact nodup_sorted rows hnd)
     (by
       intro x hx
       obtain ⟨y, hy, rfl⟩ := List.mem_map.mp hx
@@ -99,7 +100,7 @@ theorem col_fft (c L m : Nat) (hn : (z.1 - a.1).toNat + 1 = (sortRows rows).leng
     rw [coord_frames]
     obtain ⟨t, ht⟩ := List.head?_eq_some_iff.mp hh
     have hsorted := sortRows_sorted rows
-    have hnds := nodup_sorted rows a z hnd hh hl
+    have hnds := nodup_sorted rows hnd
     have hza := (sorted_bounds _ hsorted a z hh hl z (List.mem_of_getLast? hl)).1
     rw [ht] at hsorted hnds hl hn ⊢
     have hlt : ((a :: t).map (·.1)).Pairwise (· < ·) := by
@@ -167,5 +168,149 @@ theorem msd_eq_def (rows : List FullRow) (d : Nat) (mpp fps : Rat) (maxLag : Nat
       funext fun c => col_gaps rows mpp a z hnd hh hl c (i + 1)
     simp only [Function.comp, Out.stats, specRow, msdDef, hG]
     rfl
+
+/-! ## row order -/
+
+theorem eq_of_frame_eq : ∀ (l : List FullRow), (l.map (·.1)).Nodup → ∀ a ∈ l, ∀ b ∈ l,
+    a.1 = b.1 → a = b
+  | [], _, a, ha, _, _, _ => by simp at ha
+  | x :: l, hnd, a, ha, b, hb, hab => by
+    simp only [List.map_cons, List.nodup_cons] at hnd
+    rcases List.mem_cons.mp ha with rfl | ha' <;> rcases List.mem_cons.mp hb with rfl | hb'
+    · rfl
+    · exact absurd (List.mem_map.mpr ⟨b, hb', hab.symm⟩) hnd.1
+    · exact absurd (List.mem_map.mpr ⟨a, ha', hab⟩) hnd.1
+    · exact eq_of_frame_eq l hnd.2 a ha' b hb' hab
+
+/-- the sort erases the input row order (one row per frame) -/
+theorem sortRows_perm_eq (rows rows' : List FullRow) (hp : rows.Perm rows') (hnd : NodupFrames rows) :
+    sortRows rows = sortRows rows' := by
+  have hs := sortRows_perm rows
+  have hs' := sortRows_perm rows'
+  apply List.Perm.eq_of_pairwise (le := fun a b : FullRow => a.1 ≤ b.1) _
+    (sortRows_sorted rows) (sortRows_sorted rows') (hs.trans (hp.trans hs'.symm))
+  intro a b ha hb h1 h2
+  exact eq_of_frame_eq rows hnd a (hs.mem_iff.mp ha) b (hp.mem_iff.mpr (hs'.mem_iff.mp hb))
+    (Int.le_antisymm h1 h2)
+
+/-- **the result does not depend on the order of the input rows** — every column, `N` included -/
+theorem msd_order_indep (rows rows' : List FullRow) (d : Nat) (mpp fps : Rat) (maxLag : Nat)
+    (hp : rows.Perm rows') (hnd : NodupFrames rows) :
+    msd rows d mpp fps maxLag = msd rows' d mpp fps maxLag := by
+  unfold msd
+  rw [sortRows_perm_eq rows rows' hp hnd]
+
+/-- **index is the lag, `lagt = lag / fps`** (both paths, by construction of the rows) -/
+theorem index_is_lag (rows : List FullRow) (d : Nat) (mpp fps : Rat) (maxLag : Nat) :
+    ∀ o ∈ msd rows d mpp fps maxLag, 1 ≤ o.lag ∧ o.lag ≤ maxLag ∧ o.lagt = (o.lag : Rat) / fps := by
+  intro o ho
+  unfold msd at ho
+  simp only at ho
+  cases hh : (sortRows rows).head? with
+  | none => simp [hh] at ho
+  | some a =>
+    cases hl : (sortRows rows).getLast? with
+    | none => simp [hh, hl] at ho
+    | some z =>
+      simp only [hh, hl] at ho
+      split at ho
+      · simp only [fftOut, List.mem_map, List.mem_range] at ho
+        obtain ⟨i, hi, rfl⟩ := ho
+        exact ⟨by simp, by simp only; omega, rfl⟩
+      · simp only [gapsOut, List.mem_map, List.mem_range] at ho
+        obtain ⟨i, hi, rfl⟩ := ho
+        exact ⟨by simp, by simp only; omega, rfl⟩
+
+/-! ## imsd / emsd -/
+
+theorem lookup_map_self (ids : List Nat) (f : Nat → List Out) (p : Nat) (hp : p ∈ ids) :
+    (ids.map fun q => (q, f q)).lookup p = some (f p) := by
+  induction ids with
+  | nil => simp at hp
+  | cons q ids ih =>
+    simp only [List.map_cons, List.lookup_cons]
+    by_cases h : p = q
+    · subst h; simp
+    · have : (p == q) = false := by simp [h]
+      rw [this]
+      exact ih (by simpa [h] using hp)
+
+/-- **imsd reports the same numbers per particle**: the cell (lag, p) of `imsd` is the value of the
+row at that lag of `msd` applied to the rows of particle `p` alone (NaN when `msd` has no such row). -/
+theorem imsd_eq_msd (t : List PRow) (d : Nat) (mpp fps : Rat) (maxLag : Nat)
+    (col : Out → Option Rat) (p lag : Nat) (hp : p ∈ particleIds t) :
+    imsdCell (perParticle t d mpp fps maxLag) col p lag
+      = (rowAt (msd (rowsOf t p) d mpp fps maxLag) lag).bind col := by
+  unfold imsdCell perParticle
+  rw [lookup_map_self _ _ p hp]
+
+/-- who contributes to `emsd` at a lag: exactly the particles whose own `msd` has a row at the lag
+with a defined (non-NaN) value; each enters with its weight `N` and its value -/
+theorem mem_contrib (per : List (Nat × List Out)) (col : Out → Option Rat) (lag : Nat) (w v : Rat) :
+    (w, v) ∈ contrib per col lag
+      ↔ ∃ x ∈ per, ∃ o, rowAt x.2 lag = some o ∧ col o = some v ∧ o.n = w := by
+  unfold contrib
+  simp only [List.mem_filterMap, Option.bind_eq_some_iff, Option.map_eq_some_iff, Prod.mk.injEq]
+  constructor
+  · rintro ⟨x, hx, o, ho, v', hv, hw, rfl⟩
+    exact ⟨x, hx, o, ho, hv, hw⟩
+  · rintro ⟨x, hx, o, ho, hv, hw⟩
+    exact ⟨x, hx, o, ho, v, hv, hw, rfl⟩
+
+/-- **emsd is the N-weighted average over the particles that contribute at that lag** -/
+theorem emsd_weighted (per : List (Nat × List Out)) (col : Out → Option Rat) (lag : Nat)
+    (h : contrib per col lag ≠ []) :
+    emsdAt per col lag
+      = some (((contrib per col lag).map fun x => x.1 * x.2).sum / ((contrib per col lag).map (·.1)).sum) := by
+  unfold emsdAt
+  have : (contrib per col lag).length ≠ 0 := by simpa using h
+  simp [this]
+
+/-- emsd is NaN exactly when no particle contributes at the lag -/
+theorem emsd_none_iff (per : List (Nat × List Out)) (col : Out → Option Rat) (lag : Nat) :
+    emsdAt per col lag = none ↔ ∀ x ∈ per, ∀ o, rowAt x.2 lag = some o → col o = none := by
+  unfold emsdAt
+  constructor
+  · intro h x hx o ho
+    by_contra hc
+    obtain ⟨v, hv⟩ := Option.ne_none_iff_exists'.mp hc
+    have hm : (o.n, v) ∈ contrib per col lag := (mem_contrib per col lag o.n v).mpr ⟨x, hx, o, ho, hv, rfl⟩
+    have : (contrib per col lag).length ≠ 0 := by
+      intro h0; rw [List.length_eq_zero_iff] at h0; rw [h0] at hm; simp at hm
+    simp [this] at h
+  · intro h
+    have : contrib per col lag = [] := by
+      apply List.eq_nil_iff_forall_not_mem.mpr
+      rintro ⟨w, v⟩ hm
+      obtain ⟨x, hx, o, ho, hv, _⟩ := (mem_contrib per col lag w v).mp hm
+      rw [h x hx o ho] at hv
+      cases hv
+    simp [this]
+
+/-! ## non-vacuity -/
+
+/-- the hypotheses of `msd_eq_def` hold on a gapped trajectory (frames 0, 2, 4) whose lags 1 and 3
+have no pair -/
+example : NodupFrames [(0, [0, 0]), (2, [1, 0]), (4, [3, 0])] ∧
+    (sortRows [(0, [0, 0]), (2, [1, 0]), (4, [3, 0])]).head? = some (0, [0, 0]) ∧
+    (sortRows [(0, [0, 0]), (2, [1, 0]), (4, [3, 0])]).getLast? = some (4, [3, 0]) := by
+  have hs : sortRows [(0, [0, 0]), (2, [1, 0]), (4, [3, 0])] = [(0, [0, 0]), (2, [1, 0]), (4, [3, 0])] := by
+    unfold sortRows
+    apply List.mergeSort_of_pairwise
+    simp
+  rw [hs]
+  refine ⟨by simp [NodupFrames], rfl, rfl⟩
+
+/-- the specification is NaN at a lag without a pair and a number at a lag with pairs -/
+example : sqDef [(0, 0), (2, 1), (4, 3)] 1 = none ∧ sqDef [(0, 0), (2, 1), (4, 3)] 2 = some (5 / 2) := by
+  constructor
+  · simp [sqDef, diffs, meanOpt]
+  · simp [sqDef, diffs, meanOpt, sq]; norm_num
+
+/-- a permuted table satisfies the hypotheses of `msd_order_indep` -/
+example : ([(3, [6]), (0, [0]), (1, [1])] : List FullRow).Perm [(0, [0]), (1, [1]), (3, [6])] ∧
+    NodupFrames [(3, [6]), (0, [0]), (1, [1])] := by
+  refine ⟨?_, by simp [NodupFrames]⟩
+  exact (List.Perm.swap _ _ _).trans ((List.Perm.swap _ _ _).cons _) |>.symm |>.symm
 
 end TrackpyV.MSD
